@@ -15,7 +15,7 @@ func init() {
 }
 
 func checkC03(w *World, r *Report) {
-	r.Decides = "C03 is decided in its structural part only: (a) no value written to the apply batch, to the entry results or returned by a command handler derives from the wall clock, randomness, the environment, host identity or a per-replica field, and no map iteration or goroutine feeds those sinks; (b) every field of the apply context that is written per entry and read by the commit after the loop is either assigned on every entry from a non-optional source or assigned from an optional source only when that source is present (so the commit does not depend on where the batch was cut); (c) every command result carries the entry's own index as revision; (d) switching the batch to an indexed one loses nothing; (e) both snapshot formats carry bookkeeping keys together with the data (SST: unfiltered iterator over the prepared snapshot, every pair written; checkpoint: flush before checkpoint, every listed file written); (f) Update applies every entry of an apply call: the loop visits entries[0..len-1] one by one, every iteration crosses the command step, and the loop is never left with success from inside an iteration."
+	r.Decides = "C03 is decided in its structural part only: (a) no value written to the apply batch, to the entry results or returned by a command handler derives from the wall clock, randomness, the environment, host identity or a per-replica field, and no map iteration or goroutine feeds those sinks; (b) every field of the apply context that is written per entry and read by the commit after the loop is either assigned on every entry from a non-optional source or assigned from an optional source only when that source is present (so the commit does not depend on where the batch was cut); (c) every command result carries the entry's own index as revision; (d) switching the batch to an indexed one loses nothing; (e) both snapshot formats carry bookkeeping keys together with the data (SST: unfiltered iterator over the prepared snapshot, every pair written; checkpoint: flush before checkpoint, every listed file written); (f) Update applies every entry of an apply call: the loop visits entries[0..len-1] one by one, every iteration crosses the command step, and the loop is never left with success from inside an iteration; (g) a snapshot is recovered in the format its own header names, whatever format this replica is configured to produce (C08.a)."
 	r.NotDecided = []string{"equality of two replicas' content (needs Pebble determinism)", "restart and snapshot interleavings beyond the orderings of C04/C08"}
 	r.Assume = []string{"metrics and logging are not replicated state", "the log entries themselves are identical on all replicas (Raft)"}
 	a := w.FsmAnchors()
@@ -29,7 +29,8 @@ func checkC03(w *World, r *Report) {
 	c03Revision(w, r, a, "C03.c", "c-result-revision")
 	c01ReadOwnBatch(w, r, a, "C03.d", "d-indexed-switch")
 	c03Snapshots(w, r, a, "C03.e", "e-snapshots-carry-bookkeeping")
-	applyLoopComplete(w, r, a.Update, a.isHandlerStep, "C03.f", "f-every-entry-applied")
+	applyLoopComplete(w, r, a, "C03.f", "f-every-entry-applied")
+	c08Dispatch(w, r, a, "C03.g", "g-snapshot-format-from-stream")
 }
 
 func c03Determinism(w *World, r *Report, a *FsmA) {
@@ -226,6 +227,30 @@ func c03Carry(w *World, r *Report, a *FsmA, id, slug string) {
 				}}
 				if p := wk.Find(entry(fn)); p != nil {
 					ob.Violate("carry-field-unguarded/"+fld+"@"+FnName(fn), in.Pos(), "context."+fld+" is overwritten from the optional `"+Expr(st.Val)+"` without testing that it is present, but it is persisted once per apply batch: an entry without it erases the value of an earlier entry of the same batch", w.PathString(p)...)
+				}
+				// presence is the only condition: once the source is known to be present every way
+				// to a success return of the step takes it over. A further condition - on the value
+				// already held, say - makes the result depend on which entries share an apply call,
+				// because the context does not outlive the call.
+				for _, b := range fn.Blocks {
+					for k := range b.Succs {
+						for _, l := range ctx.EdgeLits(b, k) {
+							if !l.Implies(want) {
+								continue
+							}
+							isThis := func(x ssa.Instruction) bool {
+								s2, ok := x.(*ssa.Store)
+								if !ok {
+									return false
+								}
+								f2, ok := s2.Addr.(*ssa.FieldAddr)
+								return ok && types.Identical(deref(f2.X.Type()), a.Ctx) && fieldAddrName(f2) == fld
+							}
+							if p := (&Walk{Barrier: isThis, Target: isSuccessReturn}).Find(Loc{b.Succs[k], 0}); p != nil {
+								ob.Violate("carry-field-conditional/"+fld+"@"+FnName(fn), in.Pos(), "context."+fld+" is not always taken from an entry that carries it: whether it is depends on more than its presence (e.g. on the value seen earlier in the same apply call), so replicas that group the entries differently record different values", w.PathString(p)...)
+							}
+						}
+					}
 				}
 			} else {
 				// total: every success path of fn crosses a store to this field
